@@ -477,14 +477,25 @@ func c13Loop(c *Ctx) {
 			"an error is returned together with a (partial) response", c.w.ipos(i))
 	})
 	k := 0
-	for _, f := range []*ssa.Function{fn, c.a.ToQuery, c.a.ToExpr} {
+	scope := []*ssa.Function{fn}
+	for _, f := range c.w.ModFuncs {
+		if c.w.pkgPathOf(f) == pkgConvert {
+			scope = append(scope, f)
+		}
+	}
+	for _, f := range scope {
 		allInstrs(f, func(i ssa.Instruction) {
 			call, ok := i.(*ssa.Call)
 			if !ok {
 				return
 			}
 			callee := calleeFunc(&call.Call)
-			if callee != c.a.ToQuery && callee != c.a.ToExpr && callee != c.a.Execute {
+			if callee == nil {
+				return
+			}
+			// conversions and execution: ToQuery, toExpr, Execute, and any other error-returning function of the conversion package
+			isConv := c.w.pkgPathOf(callee) == pkgConvert && callee.Signature.Results().Len() == 2 && isErrorType(callee.Signature.Results().At(1).Type())
+			if callee != c.a.ToQuery && callee != c.a.ToExpr && callee != c.a.Execute && !isConv {
 				return
 			}
 			k++
